@@ -69,18 +69,19 @@ func CountSteps(limit uint64, f func()) (steps uint64) {
 
 // Task is one goroutine known to the scheduler.
 type Task struct {
-	Name   string
-	Client int // index of the root client this task belongs to
-	goid   uint64
-	wake   chan struct{}
-	parked atomic.Bool
-	site   uint32
-	hits   []uint32
-	done   atomic.Bool
-	rng    *SplitMix64 // per-task stream (map permutations)
-	stderr *strings.Builder
-	Panic  any
-	Stack  string
+	Name     string
+	Client   int // index of the root client this task belongs to
+	goid     uint64
+	wake     chan struct{}
+	parked   atomic.Bool
+	site     uint32
+	hits     []uint32
+	syncHits uint32
+	done     atomic.Bool
+	rng      *SplitMix64 // per-task stream (map permutations)
+	stderr   *strings.Builder
+	Panic    any
+	Stack    string
 }
 
 // Client is one simulated caller.
